@@ -181,3 +181,19 @@ PROPS["C10"] = {
     ],
     "floor_q": 20, "floor_t": 1000,
 }
+
+PROPS["C11"] = {
+    "level": "fault_enumeration",
+    "technique": "rapid-generated pairs (request history cut at a request boundary or by SIGKILL at the k-th cache-file rename via strace, runtime truth mutated while the plugin is down); a fresh resource manager on the same state directory synchronizes with the generated truth and all allocation invariants plus purge/coverage predicates are evaluated; repeated restarts",
+    "rule": _HIST_RULE + "the plugin is then restarted 1-3 times on the persisted state; before each restart the runtime truth is changed by 0-5 generated edits (containers gone, started, stopped, pods gone, unknown pods/containers added); "
+            "non-trivial = the cut was inside a request (helper killed) or the runtime truth differs from the model at the cut; distinct = hash of the case",
+    "assumptions": _HIST_ASSUME + ["a request in flight when the plugin is killed never completed for the runtime (the container it was creating does not exist in the runtime truth)",
+                                   "kill points are the renames of <state>/cache (every cache save); between saves the persisted state does not change"],
+    "units": [
+        {"name": "restart-ta", "pkg": RESMGR, "run": "^TestVerifC11TA$", "replay_run": "^TestVerifC11Replay$", "q": 120, "t": 24000, "per_proc": 400},
+        {"name": "restart-balloons", "pkg": RESMGR, "run": "^TestVerifC11Balloons$", "replay_run": "^TestVerifC11Replay$", "q": 120, "t": 24000, "per_proc": 400},
+        {"name": "kill-ta", "pkg": RESMGR, "run": "^TestVerifC11KillTA$", "replay_run": "^TestVerifC11Replay$", "q": 30, "t": 8000, "per_proc": 200},
+        {"name": "kill-balloons", "pkg": RESMGR, "run": "^TestVerifC11KillBalloons$", "replay_run": "^TestVerifC11Replay$", "q": 30, "t": 8000, "per_proc": 200},
+    ],
+    "floor_q": 10, "floor_t": 500,
+}
